@@ -13,6 +13,27 @@ static ARMED: AtomicBool = AtomicBool::new(false);
 /// open / read / seek / stat of the code under test is a scheduling point: the disk I/O seam
 static IO_YIELD: AtomicBool = AtomicBool::new(false);
 
+/// when set, clock_gettime answers from the simulated clock (scenario knob "clock")
+static SIM_CLOCK: AtomicBool = AtomicBool::new(false);
+
+pub fn sim_clock(on: bool) {
+    SIM_CLOCK.store(on, Ordering::SeqCst);
+}
+
+#[no_mangle]
+pub unsafe extern "C" fn clock_gettime(clk: libc::clockid_t, ts: *mut libc::timespec) -> c_int {
+    if SIM_CLOCK.load(Ordering::Relaxed) && !ts.is_null() && (clk == libc::CLOCK_MONOTONIC || clk == libc::CLOCK_REALTIME || clk == libc::CLOCK_MONOTONIC_RAW || clk == libc::CLOCK_BOOTTIME) {
+        if let Some(w) = crate::rt::WORLD.get() {
+            if let Some(ns) = w.clock_read(clk == libc::CLOCK_REALTIME) {
+                (*ts).tv_sec = (ns / 1_000_000_000) as libc::time_t;
+                (*ts).tv_nsec = (ns % 1_000_000_000) as libc::c_long;
+                return 0;
+            }
+        }
+    }
+    libc::syscall(libc::SYS_clock_gettime, clk, ts) as c_int
+}
+
 pub fn io_yields(on: bool) {
     IO_YIELD.store(on, Ordering::SeqCst);
 }
